@@ -43,6 +43,7 @@ func init() {
 	})
 	reg(&PropSpec{ID: "C18",
 		Harnesses: []HarnessSpec{
+			{Name: "VH_C18_string", Replay: "native", Unwind: 400, MaxPaths: 400000},
 			{Name: "VH_C18_uuid", Replay: "native", Unwind: 400000, StepCap: 400_000_000},
 		},
 		Bounds:  map[string]string{"quick": "300 consecutive NewV4 calls in one process; every byte of the crypto/rand stream symbolic; short reads of rand.Reader allowed by the io.Reader contract", "thorough": "same"},
